@@ -46,6 +46,20 @@ ext_to_handle(const Type& x) {
     && (Policy::has_infinity || Policy::has_nan);
 }
 
+// Tells whether a comparison of `x' and `y' has to deal explicitly with
+// the special values: if the two types differ, the special values of an
+// operand handling them natively cannot be left to the native comparison.
+template <typename Policy1, typename Policy2,
+          typename Type1, typename Type2>
+inline bool
+ext_to_handle_cmp(const Type1& x, const Type2& y) {
+  if (Is_Same<Type1, Type2>::value) {
+    return ext_to_handle<Policy1>(x) || ext_to_handle<Policy2>(y);
+  }
+  return Policy1::has_infinity || Policy1::has_nan
+    || Policy2::has_infinity || Policy2::has_nan;
+}
+
 template <typename Policy, typename Type>
 inline Result_Relation
 sgn_ext(const Type& x) {
@@ -892,7 +906,7 @@ template <typename Policy1, typename Policy2,
           typename Type1, typename Type2>
 inline Result_Relation
 cmp_ext(const Type1& x, const Type2& y) {
-  if (!ext_to_handle<Policy1>(x) && !ext_to_handle<Policy2>(y)) {
+  if (!ext_to_handle_cmp<Policy1, Policy2>(x, y)) {
     goto native;
   }
   if (is_nan<Policy1>(x) || is_nan<Policy2>(y)) {
@@ -920,7 +934,7 @@ template <typename Policy1, typename Policy2,
           typename Type1, typename Type2>
 inline bool
 lt_ext(const Type1& x, const Type2& y) {
-  if (!ext_to_handle<Policy1>(x) && !ext_to_handle<Policy2>(y)) {
+  if (!ext_to_handle_cmp<Policy1, Policy2>(x, y)) {
     goto native;
   }
   if (is_nan<Policy1>(x) || is_nan<Policy2>(y)) {
@@ -947,7 +961,7 @@ template <typename Policy1, typename Policy2,
           typename Type1, typename Type2>
 inline bool
 le_ext(const Type1& x, const Type2& y) {
-  if (!ext_to_handle<Policy1>(x) && !ext_to_handle<Policy2>(y)) {
+  if (!ext_to_handle_cmp<Policy1, Policy2>(x, y)) {
     goto native;
   }
   if (is_nan<Policy1>(x) || is_nan<Policy2>(y)) {
@@ -974,7 +988,7 @@ template <typename Policy1, typename Policy2,
           typename Type1, typename Type2>
 inline bool
 eq_ext(const Type1& x, const Type2& y) {
-  if (!ext_to_handle<Policy1>(x) && !ext_to_handle<Policy2>(y)) {
+  if (!ext_to_handle_cmp<Policy1, Policy2>(x, y)) {
     goto native;
   }
   if (is_nan<Policy1>(x) || is_nan<Policy2>(y)) {
